@@ -257,6 +257,8 @@ class Batch:
     @staticmethod
     def _aggregate(agg, res, samples):
         st = res.get("stats", {})
+        for vd in st.get("known_hits", []):
+            agg.setdefault("known_hits", {}).setdefault(vio_class(vd), {"v": vd, "n": 0, "seed": res["seed"]})["n"] += 1
         agg["runs"] += 1
         agg["evals"] = agg.get("evals", 0) + st.get("crash_points", st.get("evaluations", 1))
         agg["events"] += st.get("events", 0)
@@ -305,6 +307,11 @@ class Batch:
             print(f"VIOLATION property={v['prop']} replay={path}")
             print(f"  {v['tag']} {v['discr']}: {v['detail'][:300]}")
             print(f"  minimised to {_n_ops(res['min_program'])} ops (from {_n_ops(res['program'])}), seen in {res['count']} runs")
+        for cls, hit in sorted(agg.get("known_hits", {}).items()):
+            entry = match_known(self.known, hit["v"]["prop"], hit["v"])
+            if entry is not None and not any(entry is e for e, _ in known_seen):
+                known_seen.append((entry, None))
+                print(f"KNOWN-FINDING: property={hit['v']['prop']} {entry['what']} [{hit['n']} cases; e.g. seed {hit['seed']}]")
         for i, he in enumerate(harness_errors[:3]):
             print(f"HARNESS-ERROR: seed={he.get('seed')} {he.get('error')}")
             if he.get("tb") and i == 0:
